@@ -8,6 +8,7 @@ number of bytes.
 import B3.Proofs.Final
 import B3.Proofs.GenK
 import B3.Model.C
+import B3.Proofs.OutputPlan
 namespace B3.Props.C07
 open B3 B3.Rs Hs St
 
@@ -100,5 +101,26 @@ theorem fill_one_block_length (K : Kern) (r : OutputReader) (want : Nat) (hp : r
     (r.fillOneBlock K want).1.length = min want (64 - r.pwb) := by
   simp only [OutputReader.fillOneBlock, List.length_take, List.length_drop, bytesOfWords_length]
   omega
+
+/-- **`output_root_bytes`, tied to the source.** The C function is regenerated from c/blake3.c on every
+run as the list of writes it performs (`Gen.C.output_root_plan`: each `memcpy` from the 64-byte
+scratch block and each `blake3_xof_many` call, with destination offset, source block, source offset and
+length, all in wrapping 64-bit arithmetic). For every `seek` and `out_len` below 2^64:
+the writes start at `out`, are back to back, every `memcpy` reads a scratch block that has been filled
+and stays inside its 64 bytes, and the lengths add up to exactly `out_len` - nothing is written
+before `out` or from `out + out_len` on. -/
+theorem c_output_root_bytes_extent (seek outLen : Nat) (hs : seek < 2 ^ 64) (ho : outLen < 2 ^ 64) :
+    Proofs.Contig 0 (Gen.C.output_root_plan seek outLen) ∧
+    Proofs.totalLen (Gen.C.output_root_plan seek outLen) = outLen :=
+  Proofs.plan_extent seek outLen hs ho
+
+/-- ...and what those writes deliver is the model's `output_root_bytes` (which C06 proves to be the
+stream slice `S[seek, seek + out_len)`) -/
+theorem c_output_root_bytes_plan_is_model (K : Kern) (o : Spec.Node) (seek outLen : Nat)
+    (hs : seek < 2 ^ 64) (ho : outLen < 2 ^ 64) :
+    ((Gen.C.output_root_plan seek outLen).map (Gen.C.Ev.bytes K o)).flatten = C.outputRootBytes K o seek outLen :=
+  Proofs.plan_bytes K o seek outLen hs ho
+
+example : Gen.C.output_root_plan 63 200 = [.copy 0 (some 0) 63 1, .many 1 1 3, .copy 193 (some 4) 0 7] := by decide
 
 end B3.Props.C07
